@@ -68,6 +68,15 @@ def tspec(M, ti):
     return M.spec["tasks"][ti]
 
 
+def is_working(M, st):
+    """Step st is a working step according to the model's project-wide absence list (st["t"] is the project's clock),
+    never according to the flag the implementation passed around."""
+    for a in M.run["abs"]:
+        if a == st["t"]:
+            return False
+    return True
+
+
 def started_flags(M):
     """For every step index k: list of booleans 'task i was seen WORKING or FINISHED at or before updated(k)' and
     the same at recorded(k)."""
@@ -92,7 +101,7 @@ def contribution(M, st, i):
     A = st["allocated"]
     t = st["t"]
     ts = tspec(M, i)
-    working = st["working"]
+    working = is_working(M, st)
     if A["tstate"][i] != WORKING:
         return 0
     if ts.get("auto"):
@@ -153,7 +162,7 @@ def c02(M, ctx):
                     ctx.fail("C02:wrong-progress")
                 if len(A["talloc_w"][i]) >= 2:
                     ctx.cover("multi-worker")
-                if any(w_absent(M, w, st["t"]) for w in A["talloc_w"][i]) and st["working"]:
+                if any(w_absent(M, w, st["t"]) for w in A["talloc_w"][i]) and is_working(M, st):
                     ctx.cover("absent-worker-on-working-task")
             elif P["rem"][i] != A["rem"][i]:
                 ctx.fail("C02:non-working-task-progressed")
@@ -231,7 +240,7 @@ def c03(M, ctx):
                     ctx.fail("C03:non-active-task-holds-resources")
             if ph == "allocated":
                 t = st["t"]
-                working = "working" in st and st["working"]
+                working = is_working(M, st)
                 if "working" in st:
                     for w in range(nW):
                         holds = len(S["wassign"][w]) > 0
@@ -403,7 +412,9 @@ def c10(M, ctx):
     for st in full_steps(M):
         t = st["t"]
         U, A, P = st["updated"], st["allocated"], st["performed"]
-        if not st["working"]:
+        if "working" in st and bool(st["working"]) != is_working(M, st):
+            ctx.fail("C10:absence-step-not-recognised")
+        if not is_working(M, st):
             ctx.cover("project-absence-step")
             for i in range(n):
                 ts = tspec(M, i)
@@ -449,7 +460,7 @@ def c10(M, ctx):
                 c = contribution(M, st, i)
                 if A["tstate"][i] == WORKING and P["rem"][i] != A["rem"][i] - c:
                     ctx.fail("C10:absent-resource-contributed")
-    ctx.nontrivial = any(not st["working"] for st in full_steps(M)) or any(w.absence_time_list for w in M.workers)
+    ctx.nontrivial = any(not is_working(M, st) for st in full_steps(M)) or any(w.absence_time_list for w in M.workers)
 
 
 # ----------------------------------------------------------------------------------------------- C14 (integration)
@@ -535,7 +546,7 @@ def c06(M, ctx):
                     gates = False
             if gates:
                 ctx.fail("C06:dependencies-satisfied-but-none")
-        if "recorded" not in st or not st["working"]:
+        if "recorded" not in st or not is_working(M, st):
             continue
         A = st["allocated"]
         t = st["t"]
@@ -582,8 +593,9 @@ def c06(M, ctx):
                             room = True
                             for S_ in (U, A):
                                 used = 0
-                                for cj in S_["wpplaced"][pi]:
-                                    used = used + M.comps[cj].space_size
+                                for cj in range(len(M.comps)):
+                                    if S_["cplaced"][cj] == pi:  # where the components say they are
+                                        used = used + M.comps[cj].space_size
                                 if not M.wps[pi].max_space_size - used > M.comps[ci].space_size - 1e-8:
                                     room = False
                             if not room:
@@ -932,7 +944,7 @@ def c11_workers(M, ctx):
     """Facility tasks: a worker newly paired in this step is not outranked (task's worker rule, target = the workplace where the
     component is placed) by a worker who stayed FREE although he was eligible for the same pair."""
     for st in full_steps(M):
-        if not st["working"]:
+        if not is_working(M, st):
             continue
         U, A = st["updated"], st["allocated"]
         for i in range(len(M.tasks)):
@@ -963,7 +975,7 @@ def c11(M, ctx):
     rule = M.run["rule"]
     n = len(M.tasks)
     for st in full_steps(M):
-        if not st["working"]:
+        if not is_working(M, st):
             continue
         U, A, t = st["updated"], st["allocated"], st["t"]
         active = [i for i in range(n) if U["tstate"][i] in (READY, WORKING) and not tspec(M, i).get("auto")]
